@@ -400,7 +400,13 @@ impl Envelope {
     /// this particular recipient.
     #[cfg(feature = "encrypt")]
     fn first_plaintext_in_sealed_messages(sealed_messages: &[SealedMessage], private_key: &dyn Decrypter) -> Result<Vec<u8>> {
+        let scheme = private_key.encapsulation_private_key().encapsulation_scheme();
         for sealed_message in sealed_messages {
+            // A message sealed under another key-encapsulation scheme cannot be
+            // for this key (and must not be handed to it: mismatched ML-KEM levels panic).
+            if sealed_message.encapsulation_scheme() != scheme {
+                continue;
+            }
             let a = sealed_message.decrypt(private_key).ok();
             if let Some(plaintext) = a {
                 return Ok(plaintext);
